@@ -15,6 +15,7 @@ PID = "C01"
 HEADER = ("From Coq Require Import QArith ZArith List. Import ListNotations.\n"
           "From TT Require Import Num NumI Tree M_like M_data M_like_data.\n")
 ALPHABET = "ACGTUKMRSWYBDHVN?-"
+AA_ALPHABET = "ACDEFGHIKLMNPQRSTVWYBZX*?-"
 
 
 def sync():
@@ -103,8 +104,17 @@ def gen_case(rng, i, tier, pool):
         else:
             tr["rate"] = [math.exp(rng.uniform(-4, -1)) for _ in range(2 * n - 2)]
     tip = rng.choice(["partials_amb", "partials_noamb", "states"])
-    return dict(tree=t, n=n, names=names, taxa_order=taxa_order, seq_order=seq_order, seqs=seqs,
+    case = dict(tree=t, n=n, names=names, taxa_order=taxa_order, seq_order=seq_order, seqs=seqs,
                 subst=sp, site=sm, treem=tr, tip=tip)
+    if n <= 5 and rng.random() < (0.04 if tier == "quick" else 0.12):
+        # amino-acid alignment with an empirical model (20 states): few, they are expensive
+        case["subst"] = dict(type=rng.choice(["LG", "WAG"]))
+        nsites = rng.randint(2, 4)
+        case["seqs"] = ["".join(rng.choice(AA_ALPHABET if rng.random() < 0.25 else AA_ALPHABET[:20])
+                                for _ in range(nsites)) for _ in range(n)]
+        if sm["type"].startswith("weibull"):
+            sm["K"] = 2
+    return case
 
 
 # ----------------------------------------------------------------------------- implementation
@@ -127,7 +137,9 @@ def build(case):
                 "ratios": impl.param_json("ratios", tr["ratios"]),
                 "root_height": impl.param_json("root_height", [tr["root_height"]])}
     sp = case["subst"]
-    if sp["type"] == "JC69":
+    if sp["type"] in ("LG", "WAG"):
+        subst = {"id": "m", "type": "torchtree.evolution.substitution_model.amino_acid." + sp["type"]}
+    elif sp["type"] == "JC69":
         subst = {"id": "m", "type": "JC69"}
     elif sp["type"] == "HKY":
         subst = {"id": "m", "type": "HKY", "kappa": impl.param_json("kappa", [sp["kappa"]]),
@@ -147,7 +159,9 @@ def build(case):
         site["invariant"] = impl.param_json("pinv", [sm["pinv"]])
     if "mu" in sm:
         site["mu"] = impl.param_json("mu", [sm["mu"]])
-    aln = {"id": "aln", "type": "Alignment", "datatype": "nucleotide", "taxa": "taxa",
+    aln = {"id": "aln", "type": "Alignment",
+           "datatype": {"id": "dt", "type": "AminoAcidDataType"} if sp["type"] in ("LG", "WAG") else "nucleotide",
+           "taxa": "taxa",
            "sequences": [{"taxon": names[j], "sequence": case["seqs"][j]} for j in case["seq_order"]]}
     d = {"id": "like", "type": "TreeLikelihoodModel", "tree_model": tree, "site_model": site,
          "substitution_model": subst, "site_pattern": {"id": "sp", "type": "SitePattern", "alignment": aln}}
@@ -175,15 +189,16 @@ def run_impl(case):
     props = [float(x) for x in like.site_model.probabilities().detach().reshape(-1)]
     freqs = [float(x) for x in like.subst_model.frequencies.detach().reshape(-1)]
     mats = []
+    S = len(freqs)
     for rk in rates:
         per_node = []
         for j in range(2 * n - 1):
             if j < len(lengths):
                 tt = torch.tensor([lengths[j]]) * torch.tensor(rk)
-                P = like.subst_model.p_t(tt).detach().reshape(4, 4)
+                P = like.subst_model.p_t(tt).detach().reshape(S, S)
                 per_node.append([[float(v) for v in row] for row in P])
             else:
-                per_node.append([[1.0 if a == b else 0.0 for b in range(4)] for a in range(4)])
+                per_node.append([[1.0 if a == b else 0.0 for b in range(S)] for a in range(S)])
         mats.append(per_node)
     return dict(value=value, freqs=freqs, props=props, mats=mats, rates=rates, lengths=lengths)
 
@@ -195,7 +210,8 @@ def coq_case(case, out):
     tip = {"partials_amb": "(TipPartials true)", "partials_noamb": "(TipPartials false)", "states": "TipStates"}[case["tip"]]
     taxa = C.coq_list(case["taxa_order"], C.natlit)
     seqs = C.coq_list(case["seq_order"], lambda j: f"({C.natlit(j)}, {C.coq_list([ord(ch) for ch in case['seqs'][j]], C.natlit)})")
-    return (f"show_i (loglik_nuc NumI {tip} {taxa} {seqs} {trees.coq_tree(case['tree'])} "
+    fn = "loglik_aa" if case["subst"]["type"] in ("LG", "WAG") else "loglik_nuc"
+    return (f"show_i ({fn} NumI {tip} {taxa} {seqs} {trees.coq_tree(case['tree'])} "
             f"{C.coq_list(out['freqs'], I)} {mats} {C.coq_list(out['props'], I)})")
 
 
@@ -299,7 +315,7 @@ def run(tier, seed, replay=None):
                 f = (f"C01:raises:{key_of(c)}:{type(o).__name__}", f"{type(o).__name__}: {str(o)[:200]}", dict(case=c))
                 found.setdefault(f[0], f)
                 continue
-            if c["n"] > 5 or tried >= limit:
+            if c["n"] > 5 or tried >= limit or c["subst"]["type"] in ("LG", "WAG"):
                 continue
             tried += 1
             ref = brute_force(c, o)
